@@ -41,7 +41,19 @@ func (w *world) run() {
 	}
 	w.rep.count(fmt.Sprintf("world:chaos-%d%%", chaos))
 	steps := 60 + r.Intn(260)
+	w.splitSyncs = r.Intn(2) == 0
+	defer func() { // whatever the main loop accepted reaches the worker in the end
+		w.splitSyncs = false
+		for _, n := range w.honest {
+			w.flushSync(n)
+		}
+	}()
 	for s := 0; s < steps; s++ {
+		for _, n := range w.honest { // a block waiting in a worker's channel is taken some events later
+			if w.pendingSync[n.id] != nil && r.Intn(3) == 0 {
+				w.flushSync(n)
+			}
+		}
 		// hold / release a node's inbox (a slow or partitioned node whose traffic arrives later, in a burst)
 		if r.Intn(60) == 0 {
 			n := w.honest[r.Intn(len(w.honest))]
@@ -855,8 +867,15 @@ func (w *world) byzAction() {
 		out := uint64(w.n + r.Intn(2))
 		w.byz[out] = true // its key is under adversary control
 		kind, ty := "P", uint64(2)
-		if r.Intn(2) == 0 {
+		switch r.Intn(3) {
+		case 0:
 			kind, ty = "C", 3
+		case 1: // an outsider in the leader's role: a proposal for a view whose leader sits at position 0, 1 or where the target is
+			blk := w.byzBlock(h)
+			pv := []uint64{0, uint64(w.n), uint64(w.n) + 1, v}[r.Intn(4)]
+			w.inject(target, &aMsg{Kind: "PP", Ref: ref(1, pv, blk.Id), Snd: aSig{out, true}, Block: blk}, "outsider-PP")
+			delete(w.byz, out)
+			return
 		}
 		w.inject(target, &aMsg{Kind: kind, Ref: ref(ty, v, w.someHash(0)), Snd: aSig{out, true}, ShareOk: true}, "outsider-"+kind)
 		delete(w.byz, out)
@@ -1827,6 +1846,112 @@ func (w *world) bareBlockVoteScript() {
 			continue
 		}
 		w.deliverG(w.byId[p.to], p.msg, p.raw, p.genuine)
+	}
+}
+
+// outsiderLeaderScript (four correct members): an identity outside the committee, with a key of its own, sends members
+// 1, 2, 3 a well-formed PREPREPARE for view 0 before the leader's arrives, and one for view 4 (= n, the next view whose
+// leader sits at position 0). An outsider is the leader of no view (C18, C08): nothing is stored, nobody PREPAREs.
+func (w *world) outsiderLeaderScript() {
+	for _, n := range w.honest {
+		w.sync(n, nil)
+	}
+	w.byz[4] = true // the outsider's key is the adversary's
+	z := &aBlock{Height: 1, Id: 2999971}
+	for _, id := range []uint64{1, 2, 3} {
+		w.inject(w.byId[id], &aMsg{Kind: "PP", Ref: aRef{1, worldInst, 1, 0, z.Id}, Snd: aSig{4, true}, Block: z}, "outsider-PP-view0")
+		w.inject(w.byId[id], &aMsg{Kind: "PP", Ref: aRef{1, worldInst, 1, 4, z.Id}, Snd: aSig{4, true}, Block: z}, "outsider-PP-view-n")
+	}
+	delete(w.byz, 4)
+	for k := 0; k < 60 && len(w.pool) > 0; k++ {
+		p := w.pool[0]
+		w.pool = w.pool[1:]
+		w.deliverG(w.byId[p.to], p.msg, p.raw, p.genuine)
+	}
+}
+
+// failedBroadcastScript (four correct members): the proposal of view 0 is lost, everybody times out, member 1 is elected
+// for view 1 by three votes and broadcasts its NEW_VIEW - the transport reports a failure although the message went
+// out. Then the fourth vote arrives. The leader has proposed for view 1; it proposes nothing else for it (C10).
+func (w *world) failedBroadcastScript() {
+	for _, n := range w.honest {
+		w.sync(n, nil)
+	}
+	w.pool = nil
+	w.failSend = "NV"
+	for _, id := range []uint64{0, 2, 3, 1} {
+		w.election(w.byId[id], 1, 0)
+	}
+	w.takeV(1, "VC", 0, 1)
+	w.takeV(1, "VC", 2, 1)
+	w.takeV(1, "VC", 3, 1)
+	w.failSend = "-"
+	for k := 0; k < 60 && len(w.pool) > 0; k++ {
+		p := w.pool[0]
+		w.pool = w.pool[1:]
+		w.deliverG(w.byId[p.to], p.msg, p.raw, p.genuine)
+	}
+}
+
+// splitSyncScript (four correct members): member 3 is one COMMIT short of committing height 1. The missing COMMIT
+// arrives, and while its worker is inside the commit callback the main loop accepts a sync to a block of height 3 (the
+// two loops run side by side; the callback is where the harness lets the other one act). Back from the callback the
+// round of height 2 cannot start - its context is already superseded: the member stays where it is, at height 1 with
+// the term of height 1, until the worker takes the sync from its channel; a message of height 2 that arrives in between
+// is a future message (C17, C13) and never reaches the term of height 1. From the interleaved event on the member is
+// judged by the monitors only: the sequential node model has no event for "main loop inside a worker callback" (the
+// two-loop model Loops.v has, on the abstraction of heights and contexts).
+func (w *world) splitSyncScript() {
+	for _, n := range w.honest {
+		w.sync(n, nil)
+	}
+	for _, id := range []uint64{1, 2, 3} {
+		w.take(id, "PP", 0)
+	}
+	for _, to := range []uint64{0, 1, 2, 3} {
+		for _, from := range []uint64{1, 2, 3} {
+			if from != to {
+				w.take(to, "P", from)
+			}
+		}
+	}
+	// members 0, 1, 2 exchange their COMMITs and move on to height 2; member 3 gets one COMMIT only
+	for _, to := range []uint64{0, 1, 2} {
+		for _, from := range []uint64{0, 1, 2, 3} {
+			if from != to {
+				w.take(to, "C", from)
+			}
+		}
+	}
+	w.take(3, "C", 0)
+	n3 := w.byId[3]
+	if n3.hasCommitted(1) || uint64(n3.vn.State().Height()) != 1 {
+		w.rep.count("world:directed-split-sync-setup-failed")
+		return
+	}
+	b3 := &aBlock{Height: 3, Id: 2999981}
+	blk := w.codec.mkBlock(b3)
+	accepted := false
+	n3.duringCommit = func() { accepted = n3.vn.SyncMainHalf(blk) }
+	n3.untracked = true
+	w.take(3, "C", 1)
+	if !accepted {
+		w.rep.count("world:directed-split-sync-setup-failed")
+		return
+	}
+	w.rep.count("event:sync-main-half-inside-commit-callback")
+	// whatever members 0, 1, 2 sent for height 2 reaches member 3 now
+	for k := 0; k < 40 && len(w.pool) > 0; k++ {
+		p := w.pool[0]
+		w.pool = w.pool[1:]
+		if p.to != 3 {
+			continue
+		}
+		w.deliverG(n3, p.msg, p.raw, p.genuine)
+	}
+	n3.apply("ESyncWorker "+b3.coq(), "worker applies the sync to block of height 3", evInfo{kind: "sync"}, func() { n3.vn.SyncWorkerHalf(blk, w.codec.syncProof(3)) })
+	if uint64(n3.vn.State().Height()) != 4 {
+		w.rep.finding("C14", "sync-no-effect", fmt.Sprintf("node 3 is at height %d after the accepted sync to block 3 was applied", uint64(n3.vn.State().Height())), w.traceInput())
 	}
 }
 
